@@ -1,6 +1,9 @@
 #!/bin/bash
 # Runs the quick check of every claimed property on the unchanged tree; prints one line each. Exit 1 if any alarms.
-cd /verif; rc=0
+# It is the authoring-time step before every commit of /verif, so it also refreshes contracts.lock.json (the names,
+# types and ordinals of the locals the contracts mention, used to re-bind them after a rename): GOVC_WRITE_LOCK=1.
+cd "$(dirname "$0")"; rc=0
+export GOVC_WRITE_LOCK=1
 for p in $(python3 -c "import json;print(' '.join(c['property_id'] for c in json.load(open('MANIFEST.json'))['checks']))"); do
   out=$(./check $p 2>&1); r=$?
   echo "$out" | grep -E "obligations discharged" | sed "s/^/[exit $r] /"
